@@ -111,9 +111,13 @@ def main(tier, seed, replay=None, scale=1.0):
                 rep.sample({"cid": r["cid"], "image": r["image"], "corruption": r["descr"],
                             "fy_exit": r["rc1"], "fy_problem_codes": r["codes1"][:8], "fn_exit": r["rc2"]})
             if r["rc2"] != 0:
-                key = "C01 %s -> %s" % (r["cls"], ",".join(r["codes2"]) or "exit%s" % r["rc2"])
-                rep.violation(key, "e2fsck -fy exit %s then e2fsck -fn exit %s on %s cid %d: %s\n%s" %
-                              (r["rc1"], r["rc2"], r["image"], r["cid"], r["descr"], r["out2"]),
+                # a finding is identified by the specific input: base image + the 1-minimal set of
+                # corruptions (object, field, operator, old->new value) that does not converge
+                key = "C01 %s: %s" % (r["image"], "; ".join("%s.%s %s %s" % tuple(d) for d in r["descr"]))
+                rep.violation(key, "e2fsck -fy exit %s then e2fsck -fn exit %s (second-pass problem codes %s) "
+                              "on %s cid %d: %s\n%s" %
+                              (r["rc1"], r["rc2"], ",".join(r["codes2"]) or "-", r["image"], r["cid"],
+                               r["descr"], r["out2"]),
                               replay={"cid": r["cid"], "image": r["image"], "descr": r["descr"],
                                       "patches": r.get("patches")})
     rep.assumptions = ["base images: committed corpus built once with the pinned mke2fs/debugfs",
